@@ -11,7 +11,7 @@ import itertools
 from hypothesis import strategies as st
 
 from vlib import gen_unit
-from vlib.core import Sub, req, sut
+from vlib.core import fuzz_variant, Sub, req, sut
 
 PROPERTY = "C15"
 RULE = ("segment lists from real integer label data (stretched molecules, indels, repeats, dropouts, both strands) and ladders of 2-8 "
@@ -142,8 +142,11 @@ def strategy():
 
 def subchecks(tier):
     q = tier == "quick"
-    return [
+    subs = [
         Sub("resolve-list", "hyp", check_list, strategy=strategy, examples=16000 if q else 600000, shrink_budget=600,
             required_classes=("chain=3", "trimmed=1")),
         Sub("resolve-pairwise", "hyp", check_pairwise, strategy=strategy, examples=8000 if q else 300000, shrink_budget=600),
     ]
+    if not q:
+        subs.append(fuzz_variant(next(s for s in subs if s.name == "resolve-list"), 40000))
+    return subs
